@@ -10,4 +10,5 @@ globals().update(build('C01', 'Aggregates are invariant to how data is batched a
     'harness.agg.classification',
     'harness.agg.retrieval',
     'harness.agg.text',
+    'harness.agg.generated',   # translate/scalar.py: generated scalar definitions (self-check + theorems)
 ]))
